@@ -15,6 +15,7 @@ import (
 type DataStore struct {
 	noCopy                  noCopy
 	lock                    *deadlock.RWMutex
+	updateLock              *deadlock.Mutex                // serializes updates of this table, taken before lock
 	index                   map[string]*DataRow            // access data rows from primary key, ex.: hostname or comment id
 	index2                  map[string]map[string]*DataRow // access data rows from 2 primary keys, ex.: host and service
 	indexLowerCase          map[string][]string            // access data rows from lower case primary key
@@ -32,6 +33,7 @@ type DataStore struct {
 func NewDataStore(table *Table, peer *Peer) (d *DataStore) {
 	d = &DataStore{
 		lock:                    new(deadlock.RWMutex),
+		updateLock:              new(deadlock.Mutex),
 		data:                    make([]*DataRow, 0),
 		index:                   make(map[string]*DataRow),
 		index2:                  make(map[string]map[string]*DataRow),
